@@ -602,6 +602,56 @@ func (e *Engine) model(st *state, fr *frame, in ssa.CallInstruction, fn *ssa.Fun
 		}
 		e.addEvent(st, fr, &Event{Kind: EvWriteInt, Buf: w, IntType: it, Order: ord, Src: src, Size: mkInt(sz)}, in)
 		return one(st, mkNil(errT)), true
+	case "encoding/binary.Append":
+		// binary.Append(b, order, v): b followed by the bytes binary.Write would produce for v
+		if len(args) == 3 {
+			ord, data := orderOf(args[1]), stripIface(args[2])
+			var src *Val
+			var it types.Type
+			if p, ok := data.Type.Underlying().(*types.Pointer); ok {
+				it = p.Elem()
+				src = e.load(st, data, it)
+			} else {
+				it, src = data.Type, data
+			}
+			if sz, ok := fixedSize(it); ok {
+				if sz == 1 {
+					ord = ""
+				}
+				first := stripCT(e.contentOf(st, args[0]))
+				if first.IsNilConst() || first.Op == "availbuf" || (first.Op == "makeslice" && isZero(first.Args[0])) || (first.Op == "slice" && first.Args[2] != nil && isZero(first.Args[2])) {
+					return one(st, tuple(&Val{Op: "intbytes", Name: ord, Args: []*Val{src}, Type: it}, mkNil(errT))), true
+				}
+			}
+		}
+	case "encoding/binary.Decode":
+		// binary.Decode(b, order, &v): v := the number in the first Size(v) bytes of b; an error when b is shorter
+		if len(args) == 3 {
+			ord, data := orderOf(args[1]), stripIface(args[2])
+			if p, ok := data.Type.Underlying().(*types.Pointer); ok {
+				if sz, ok := fixedSize(p.Elem()); ok {
+					if sz == 1 {
+						ord = ""
+					}
+					content := stripCT(e.contentOf(st, args[0]))
+					exact := false
+					if content.Op == "wire" {
+						if n, isC := affOf(mkLen(content)).IsConst(); isC && n == sz {
+							exact = true
+						} else if sz == -1 {
+							// generic body: the slice was cut to binary.Size of the same type
+							if l := stripCT(mkLen(content)); l.Op == "call" && l.Name == "encoding/binary.Size" {
+								exact = true
+							}
+						}
+					}
+					if exact {
+						st.mem[data.Key()] = memEntry{Addr: data, V: &Val{Op: "decoded", ID: content.ID, Name: ord, Args: []*Val{content}, Type: p.Elem()}}
+						return one(st, tuple(mkLen(content), mkNil(errT))), true
+					}
+				}
+			}
+		}
 	case "encoding/binary.Read":
 		r, ord, data := stripIface(args[0]), orderOf(args[1]), stripIface(args[2])
 		if !isBufferType(r.Type) {
@@ -706,6 +756,27 @@ func (e *Engine) model(st *state, fr *frame, in ssa.CallInstruction, fn *ssa.Fun
 		}, true
 	case "(*bytes.Buffer).Write", "(*bytes.Buffer).WriteString":
 		src := e.contentOf(st, args[1])
+		// numbers staged by a loop: AppendUintN onto a staged prefix, once per iteration
+		if sr := stripCT(src); sr != nil && sr.Op == "stagedrep" && len(sr.Args) == 3 {
+			pre := stagedInts(sr.Args[0])
+			first := stripCT(sr.Args[0])
+			emptyInit := first.IsNilConst() || first.Op == "availbuf" || (first.Op == "makeslice" && isZero(first.Args[0]))
+			if pre != nil || emptyInit {
+				for _, ib := range pre {
+					sz, _ := fixedSize(ib.Type)
+					ord := ib.Name
+					if sz == 1 {
+						ord = ""
+					}
+					e.addEvent(st, fr, &Event{Kind: EvWriteInt, Buf: args[0], IntType: ib.Type, Order: ord, Src: ib.Args[0], Size: mkInt(sz)}, in)
+				}
+				ib := sr.Args[1]
+				sz, _ := fixedSize(ib.Type)
+				inner := &Event{ID: e.id(), Kind: EvWriteInt, Buf: args[0], IntType: ib.Type, Order: ib.Name, Src: ib.Args[0], Size: mkInt(sz), Fn: fr.fn, Site: fr.site, Instr: in, Pos: in.Pos(), NCond: len(st.conds)}
+				e.addEvent(st, fr, &Event{Kind: EvRep, LoopID: sr.ID, Count: sr.Args[2], Bounded: "bulk", Iter: []*Arm{{Events: []*Event{inner}, Next: map[string]*Val{}}}}, in)
+				return one(st, tuple(mkLen(src), mkNil(errT))), true
+			}
+		}
 		// a number staged by hand: PutUintN into a local array, or AppendUintN(nil, v)
 		if ibs := stagedInts(src); ibs != nil {
 			total := int64(0)
@@ -719,6 +790,21 @@ func (e *Engine) model(st *state, fr *frame, in ssa.CallInstruction, fn *ssa.Fun
 				e.addEvent(st, fr, &Event{Kind: EvWriteInt, Buf: args[0], IntType: ib.Type, Order: ord, Src: ib.Args[0], Size: mkInt(sz)}, in)
 			}
 			return one(st, tuple(mkInt(total), mkNil(errT))), true
+		}
+		// a literal run of 2, 4 or 8 zero bytes: room reserved for a number (patched later) – a zero placeholder
+		// without byte order, like the gap of a staged array
+		if lit := stripCT(src); lit != nil && lit.Op == "arraylit" && (len(lit.Args) == 2 || len(lit.Args) == 4 || len(lit.Args) == 8) {
+			allZero := true
+			for _, a := range lit.Args {
+				if !isZero(a) {
+					allZero = false
+				}
+			}
+			if allZero {
+				it := map[int]types.Type{2: types.Typ[types.Uint16], 4: types.Typ[types.Uint32], 8: types.Typ[types.Uint64]}[len(lit.Args)]
+				e.addEvent(st, fr, &Event{Kind: EvWriteInt, Buf: args[0], IntType: it, Order: "zero", Src: mkConst(constant.MakeInt64(0), it), Size: mkInt(int64(len(lit.Args)))}, in)
+				return one(st, tuple(mkInt(int64(len(lit.Args))), mkNil(errT))), true
+			}
 		}
 		n := mkLen(src)
 		e.addEvent(st, fr, &Event{Kind: EvWriteBytes, Buf: args[0], Src: src, Size: n}, in)
@@ -775,9 +861,35 @@ func (e *Engine) model(st *state, fr *frame, in ssa.CallInstruction, fn *ssa.Fun
 	case "(*bytes.Buffer).Next":
 		// consumes min(n, Len()) bytes without any failure indication and returns a view of them (an alias of the
 		// buffer's storage); whether exactly n bytes were there is for the rules to establish from a dominating guard
+		// Unless a check in force establishes that n bytes are there, the call has a second, short outcome: fewer bytes,
+		// the buffer empty afterwards and – unlike Read – nothing that says so except the length of the result.
+		rt := fn.Signature.Results().At(0).Type()
+		guarded := isZero(args[1])
+		for _, c := range st.conds {
+			if availabilityGuard(c, args[1]) {
+				guarded = true
+			}
+		}
+		short := func(s2 *state) callRes {
+			ev2 := e.addEvent(s2, fr, &Event{Kind: EvReadBytes, Mode: "Next", Buf: args[0], Size: args[1], Args: args[1:], Failed: true, Short: true}, in)
+			markExhausted(s2, args[0])
+			sh := &Val{Op: "short", ID: ev2.ID, Args: []*Val{args[1]}, Type: intT}
+			return callRes{st: s2, val: &Val{Op: "bufnext", ID: ev2.ID, Args: []*Val{args[0], sh, {Op: "unknown", ID: ev2.ID, Name: "partial-read", Type: rt, Args: []*Val{sh}}}, Type: rt}}
+		}
+		if st.exhausted[args[0].Key()] && !guarded {
+			return []callRes{short(st)}, true
+		}
+		var st2 *state
+		if !guarded {
+			st2 = st.clone()
+		}
 		ev := e.addEvent(st, fr, &Event{Kind: EvReadBytes, Mode: "Next", Buf: args[0], Size: args[1], Args: args[1:]}, in)
-		w := &Val{Op: "wire", ID: ev.ID, Type: fn.Signature.Results().At(0).Type(), Args: []*Val{args[1]}}
-		return one(st, &Val{Op: "bufnext", ID: ev.ID, Args: []*Val{args[0], args[1], w}, Type: fn.Signature.Results().At(0).Type()}), true
+		w := &Val{Op: "wire", ID: ev.ID, Type: rt, Args: []*Val{args[1]}}
+		res := []callRes{{st: st, val: &Val{Op: "bufnext", ID: ev.ID, Args: []*Val{args[0], args[1], w}, Type: rt}}}
+		if st2 != nil {
+			res = append(res, short(st2))
+		}
+		return res, true
 	case "bytes.NewBuffer", "bytes.NewBufferString", "bytes.NewReader":
 		return one(st, &Val{Op: "call", Name: name, Args: []*Val{args[0]}, Type: fn.Signature.Results().At(0).Type()}), true
 	case "fmt.Errorf", "errors.New":
@@ -853,6 +965,12 @@ func (e *Engine) model(st *state, fr *frame, in ssa.CallInstruction, fn *ssa.Fun
 			}
 			e.addEvent(st, fr, &Event{Kind: EvPatch, Buf: bufv, IntType: it, Order: ord, Dst: args[1], Src: args[2], Size: mkInt(sz)}, in)
 			return one(st, nil), true
+		}
+		// UintN(b) panics when b is shorter than N bytes
+		if strings.HasPrefix(m, "Uint") && len(args) == 2 {
+			if need := map[string]int64{"Uint16": 2, "Uint32": 4, "Uint64": 8}[m]; need > 0 {
+				e.addEvent(st, fr, &Event{Kind: EvPanicSite, Mode: "getuint", Args: []*Val{args[1], mkInt(need)}}, in)
+			}
 		}
 		// reading / appending methods: pure; the receiver (an empty struct) is dropped, slices are taken by content
 		var cargs []*Val
@@ -1053,13 +1171,43 @@ func mergePureForks(pre *state, outs []*outcome, startID int) []*outcome {
 			if len(alts) == 1 {
 				rets[i] = alts[0]
 			} else {
-				rets[i] = &Val{Op: "choice", Args: alts, Type: alts[0].Type}
+				// each alternative remembers the conditions and the (effect-free) loops of the fork it comes from: the
+				// rules that interpret an alternative (e.g. as a strip of pad bytes) need them
+				ch := &Val{Op: "choice", Args: alts, Type: alts[0].Type}
+				var forks []*choiceFork
+				for _, a := range alts {
+					for _, o := range b.outs {
+						if i < len(o.ret) && o.ret[i].Key() == a.Key() {
+							f := &choiceFork{}
+							if len(o.st.conds) > n {
+								f.Conds = append([]Cond(nil), o.st.conds[n:]...)
+							}
+							for _, ev := range o.st.events {
+								if ev.Kind == EvRep {
+									f.Loops = append(f.Loops, ev)
+								}
+							}
+							forks = append(forks, f)
+							break
+						}
+					}
+				}
+				if len(forks) == len(alts) {
+					ch.Aux = forks
+				}
+				rets[i] = ch
 			}
 		}
 		o0.ret = rets
 		merged = append(merged, &o0)
 	}
 	return append(merged, rest...)
+}
+
+// choiceFork: where one alternative of a choice value comes from.
+type choiceFork struct {
+	Conds []Cond   // the conditions of that fork beyond those all alternatives share
+	Loops []*Event // the loops that fork ran
 }
 
 func isNilable(t types.Type) bool {
